@@ -166,6 +166,7 @@ func (p *provider) CreateScope(ctx context.Context) (Scope, error) {
 		return nil, err
 	}
 
+	verifYield("provider.CreateScope:created")
 	// Track scope
 	p.scopesMu.Lock()
 	if p.scopes == nil {
@@ -177,6 +178,7 @@ func (p *provider) CreateScope(ctx context.Context) (Scope, error) {
 	p.scopes[s] = struct{}{}
 	p.scopesMu.Unlock()
 
+	verifYield("provider.CreateScope:tracked")
 	// Auto-close on context cancellation
 	go func() {
 		<-ctx.Done()
@@ -206,6 +208,7 @@ func (p *provider) Close() error {
 	}
 	p.scopes = nil
 	p.scopesMu.Unlock()
+	verifYield("provider.Close:scopes-detached")
 
 	for _, s := range scopes {
 		if s != nil {
@@ -215,6 +218,7 @@ func (p *provider) Close() error {
 		}
 	}
 
+	verifYield("provider.Close:scopes-closed")
 	// Close root scope
 	if p.rootScope != nil {
 		if err := p.rootScope.Close(); err != nil {
@@ -222,6 +226,7 @@ func (p *provider) Close() error {
 		}
 	}
 
+	verifYield("provider.Close:root-scope-closed")
 	// Dispose all singleton disposables
 	p.disposablesMu.Lock()
 	disposables := p.disposables
@@ -237,6 +242,7 @@ func (p *provider) Close() error {
 		}
 	}
 
+	verifYield("provider.Close:singletons-disposed")
 	// Clear all internal state - clear singletons from sync.Map
 	p.singletonKeysMu.Lock()
 	for _, key := range p.singletonKeys {
